@@ -293,3 +293,7 @@ def run(ctx):
     ctx.guard(c15.r15_3)
     from . import c12
     ctx.guard(c12.r12_5)        # time axis in the state's dtype (see C15)
+    # the backward pass rebuilds the forward trajectory from the saved extras: the forward step must not have
+    # overwritten, in place, the tensors it carried or was handed
+    from . import c05
+    ctx.guard(c05.r05_5)
